@@ -556,6 +556,123 @@ pub fn c07(c: &mut Collector, seed: u64, shard: u64, nshards: u64, thorough: boo
             }
         }
     }
+    // printing: every text rendering the crates offer, on boundary values
+    {
+        c.eval();
+        c.count("printing-cases");
+        let r = catch_unwind(AssertUnwindSafe(|| {
+            let mut n = 0usize;
+            // (under Miri, `small`, a sample of the 20480 moves)
+            for from in (0..64u8).step_by(if small { 9 } else { 1 }) {
+                for to in (0..64u8).step_by(if small { 7 } else { 1 }) {
+                    for pr in [None, Some(Kind::N), Some(Kind::B), Some(Kind::R), Some(Kind::Q)] {
+                        let m = mv(Mv { from, to, promo: pr });
+                        n += format!("{m}").len() + format!("{m:?}").len();
+                    }
+                }
+            }
+            use chess_engine::Score;
+            for sc in [Score::Min, Score::Max, Score::Raw(0), Score::Raw(1), Score::Raw(-1), Score::Raw(i32::MIN), Score::Raw(i32::MAX), Score::WhiteMateIn(0), Score::WhiteMateIn(1), Score::WhiteMateIn(u16::MAX), Score::BlackMateIn(0), Score::BlackMateIn(1), Score::BlackMateIn(u16::MAX)] {
+                n += format!("{sc:?}").len() + format!("{sc:+?}").len() + format!("{sc:#?}").len();
+            }
+            n += format!("{:?} {:?}", chess_lookup::INITIAL_BOOOK_MOVES, chess_lookup::EMPTY_BOOK_MOVES).len();
+            for bm in chess_lookup::INITIAL_BOOOK_MOVES {
+                n += format!("{bm:?}").len();
+            }
+            let b = Board::standard();
+            n += format!("{b} {b:?} {b:#?}").len();
+            let raw = b.raw();
+            n += format!("{raw:?} {raw:#?} {raw:x} {raw:X} {raw:b} {raw:#x}").len();
+            n
+        }));
+        match r {
+            Ok(n) => d.u((n > 0) as u64),
+            Err(_) => {
+                let site = LAST_PANIC.with(|l| l.borrow().clone());
+                c.violation("safe-api-panicked", &site, format!("a Display / Debug / hex rendering panicked at {site}"), obj());
+            }
+        }
+    }
+    // raw boards used on their own, in the well-formed way (set on empty squares, remove / move what
+    // is there): they must stay a partition that agrees with a plain array
+    {
+        use chess_movegen::raw::RawBoard;
+        let rounds = if small { 3 } else { 400 };
+        for round in 0..rounds {
+            c.eval();
+            c.count("raw-board-histories");
+            let r = catch_unwind(AssertUnwindSafe(|| -> Result<u64, String> {
+                let mut real = if round % 3 == 0 { RawBoard::standard() } else { RawBoard::empty() };
+                let mut model: [Option<(Col, Kind)>; 64] = [None; 64];
+                if round % 3 == 0 {
+                    model = Position::standard().board;
+                }
+                let mut h = 0u64;
+                for step in 0..(if small { 25 } else { 60 }) {
+                    let s = rng.below(64) as u8;
+                    let t = rng.below(64) as u8;
+                    let cl = if rng.chance(1, 2) { Col::W } else { Col::B };
+                    let kd = *rng.pick(&KINDS);
+                    let what;
+                    match rng.below(4) {
+                        0 | 1 => {
+                            let res = real.set(col(cl), kind(kd), pos(s));
+                            what = format!("set({cl:?},{kd:?},{s})");
+                            if res.is_ok() != model[s as usize].is_none() {
+                                return Err(format!("step {step} {what}: returned {:?} but the square was {:?}", res.is_ok(), model[s as usize]));
+                            }
+                            if res.is_ok() {
+                                model[s as usize] = Some((cl, kd));
+                            }
+                        }
+                        2 => match model[s as usize] {
+                            Some((mc, mk)) => {
+                                real.remove(col(mc), kind(mk), pos(s));
+                                model[s as usize] = None;
+                                what = format!("remove({s})");
+                            }
+                            None => continue,
+                        },
+                        _ => match (model[s as usize], model[t as usize]) {
+                            (Some((mc, mk)), None) => {
+                                real.move_piece(col(mc), kind(mk), pos(s), pos(t));
+                                model[t as usize] = model[s as usize].take();
+                                what = format!("move_piece({s},{t})");
+                            }
+                            _ => continue,
+                        },
+                    }
+                    let mut all = 0u64;
+                    for q in 0..64u8 {
+                        let got = real.get(pos(q)).map(|(a, b)| (real::col_back(a), real::kind_back(b)));
+                        let piece = real.piece_of(pos(q)).map(real::kind_back);
+                        let colour = real.color_of(pos(q)).map(real::col_back);
+                        if got != model[q as usize] || piece != model[q as usize].map(|x| x.1) || colour != model[q as usize].map(|x| x.0) {
+                            return Err(format!("step {step} after {what}: square {q} reads {got:?} / {piece:?} / {colour:?}, the array has {:?}", model[q as usize]));
+                        }
+                        if model[q as usize].is_some() {
+                            all |= 1u64 << q;
+                        }
+                    }
+                    let by_colour = real[Color::White].to_u64() | real[Color::Black].to_u64();
+                    let by_piece = KINDS.iter().fold(0u64, |a, k| a | real[kind(*k)].to_u64());
+                    if real.all().to_u64() != all || by_colour != all || by_piece != all {
+                        return Err(format!("step {step} after {what}: all() = {:#x}, colour sets {by_colour:#x}, piece sets {by_piece:#x}, the array has {all:#x}", real.all().to_u64()));
+                    }
+                    h = fnv_mix(h, all);
+                }
+                Ok(h)
+            }));
+            match r {
+                Ok(Ok(h)) => d.u(h),
+                Ok(Err(e)) => c.violation("raw-board-differs-from-array", "history", e, obj().set("round", round as u64)),
+                Err(_) => {
+                    let site = LAST_PANIC.with(|l| l.borrow().clone());
+                    c.violation("safe-api-panicked", &site, format!("a well-formed raw-board history panicked at {site}"), obj().set("round", round as u64));
+                }
+            }
+        }
+    }
     c.sample(obj().set("position", "R6R/3Q4/1Q4Q1/4Q3/2Q4Q/Q4Q2/pp1Q4/kBNN1KB1 w - - 0 1").set("ops", n_ops).set("note", "random safe-API call sequence; see counters api:*"));
     d.0
 }
